@@ -127,7 +127,7 @@ Proof.
     + destruct (HJw Hc Hw') as [H1|[H1|H1]]; auto. right; right. eapply existsb_upd_keep; eauto.
     + destruct (HJr Hc Hw') as [H1|[H1|H1]]; auto. right; right. eapply existsb_upd_keep; eauto.
   - (* parks after the exception branch: will_close is set, the trigger pulled *)
-    simpl in Hi4. destruct Hi4 as (Hwc & Hcov). split; intros Hc Hw'; simpl in *.
+    simpl in Hi4. destruct Hi4 as (Hwc & _ & Hcov). split; intros Hc Hw'; simpl in *.
     + destruct Hcov as [H1|[H1|H1]]; [congruence | auto | right; left; right; left; auto].
     + destruct Hw' as (Hx & _). congruence.
   - (* parks in the watermark loop: output above the watermark, the trigger pulled *)
